@@ -23,7 +23,8 @@ clipped segment, boundary points not inside):
 polygon clipped by the half-spaces of a convex polyhedron (Sutherland–Hodgman):
   `sh_clip_sound`, `sh_clip_inside_unchanged` (3d, any polygon); `sh2_complete`, `sh2_sound`,
   `sh2_convex1` … (convex counter-clockwise polygons, in the plane), `sh_clip_planar`,
-  `sh_clip_complete_planar` (transport to 3d).
+  `sh_clip_complete_planar` (transport to 3d); `sh2_hull_sound` (hull of the output ⊆ polygon ∩
+  half-planes); `inRegion_halfPlanes_iff` (the region of `clipConvex` and `InPoly` coincide).
 
 WHAT REMAINS UNPROVED
   * that the even–odd rule decides the topological interior of a SIMPLE polygon (Jordan curve theorem
@@ -415,6 +416,53 @@ theorem sh_clip_complete_planar (O U V : P3) (hs : List HS) (poly : List Pt) (hc
     obtain ⟨h1, h2⟩ := sh2_sound _ poly q hq
     refine ⟨h2 hc, fun h hh => ?_⟩
     rw [eval_embed]; exact h1 _ (List.mem_map.mpr ⟨h, hh, rfl⟩)
+
+/-- the half-planes of a counter-clockwise polygon (segment clipping, `clipConvex`) cut out the same
+    region as `InPoly` (polygon clipping): one notion of "convex region" serves both halves -/
+theorem inRegion_halfPlanes_iff (poly : List Pt) (hccw : ¬ area2 poly < 0) (X : Pt) :
+    InRegion (halfPlanes poly) X ↔ InPoly poly X := by
+  unfold InRegion halfPlanes InPoly
+  simp only [hccw, if_false, List.mem_map, forall_exists_index, and_imp, forall_apply_eq_imp_iff₂,
+    halfplane_is_left_of_edge, leftOf]
+  constructor <;> intro h e he <;> have := h e he <;> linarith
+
+/-- an affine constraint satisfied by the vertices is satisfied by their convex combinations -/
+theorem eval_comb (h : HP) (ws : List Rat) (vs : List Pt) (hw : ∀ w ∈ ws, 0 ≤ w)
+    (hv : ∀ v ∈ vs, h.eval v ≤ 0) :
+    h.a * (comb ws vs).x + h.b * (comb ws vs).y - h.c * wsum ws vs ≤ 0 := by
+  induction ws generalizing vs with
+  | nil => simp [comb, wsum]
+  | cons w ws ih =>
+    cases vs with
+    | nil => simp [comb, wsum]
+    | cons v vs =>
+      have h1 := ih vs (fun x hx => hw x (List.mem_cons_of_mem _ hx)) (fun x hx => hv x (List.mem_cons_of_mem _ hx))
+      have h2 := hv v (by simp)
+      have h3 := hw w (by simp)
+      simp only [comb, wsum]
+      simp only [HP.eval] at h2
+      nlinarith [mul_nonneg h3 (neg_nonneg.mpr h2)]
+
+/-- V-representation soundness: the whole convex hull of the output vertices lies in the input
+    polygon and in every half-plane:  hull (out) ⊆ polygon ∩ half-planes ⊆ InPoly (out)
+    (second inclusion: `sh2_complete`) -/
+theorem sh2_hull_sound (hs : List HP) (poly : List Pt) (hc : ConvexCCW poly) (X : Pt)
+    (hX : InHull (shClip2 hs poly) X) : InPoly poly X ∧ ∀ h ∈ hs, h.eval X ≤ 0 := by
+  obtain ⟨ws, hw, hsum, rfl⟩ := hX
+  constructor
+  · intro e he
+    have := eval_comb (hpOfEdge e.1 e.2) ws _ hw (fun v hv => by
+      have := ((sh2_sound hs poly v hv).2 hc) e he
+      rw [halfplane_is_left_of_edge]; simp only [leftOf] at this; linarith)
+    rw [hsum] at this
+    have e2 := halfplane_is_left_of_edge e.1 e.2 (comb ws (shClip2 hs poly))
+    simp only [HP.eval] at e2
+    simp only [leftOf]
+    linarith
+  · intro h hh
+    have := eval_comb h ws _ hw (fun v hv => (sh2_sound hs poly v hv).1 h hh)
+    rw [hsum] at this
+    simp only [HP.eval]; linarith
 
 /-! ### non-vacuity: concrete data for every theorem -/
 
